@@ -5,7 +5,8 @@ use crate::dsl::{GraphD, Prog, Step};
 use crate::exec::{Case, Inline, Owner};
 use crate::rng::Rng;
 use crate::vals::{biased_value, enc, num_elems, st_bits, st_mask};
-use ciphercore_base::custom_ops::CustomOperation;
+use ciphercore_base::custom_ops::{CustomOperation, Not, Or};
+use ciphercore_base::ops::long_division::LongDivision;
 use ciphercore_base::data_types::{
     array_type, scalar_type, ScalarType, Type, BIT, INT128, INT16, INT32, INT64, INT8, UINT128, UINT16, UINT32, UINT64, UINT8,
 };
@@ -454,7 +455,17 @@ fn gen_step(f: usize, pool: &mut Pool, cfg: &GenCfg, rng: &mut Rng, graphs: &[Gr
         }
         "custom" => {
             // bit-level custom operations on binary strings (last dimension = bits)
-            let bits = pool.arrays_where(|t| t.get_scalar_type() == BIT && t.is_array());
+            let mut bits = pool.arrays_where(|t| t.get_scalar_type() == BIT && t.is_array());
+            if bits.is_empty() || rng.chance(1, 4) {
+                // bring an integer value into its binary representation first
+                let ints = pool.arrays_where(|t| t.get_scalar_type() != BIT);
+                if !ints.is_empty() {
+                    let x = *rng.pick(&ints);
+                    if let Some(nb) = pool.try_add(Operation::A2B, vec![x], vec![], graphs) {
+                        bits = vec![nb];
+                    }
+                }
+            }
             if bits.is_empty() {
                 return false;
             }
@@ -463,7 +474,26 @@ fn gen_step(f: usize, pool: &mut Pool, cfg: &GenCfg, rng: &mut Rng, graphs: &[Gr
             let same: Vec<usize> = pool.arrays_where(|t| *t == ta);
             let b = *rng.pick(&same);
             let sg = rng.chance(1, 2);
-            let op = match rng.below(11) {
+            let op = match rng.below(14) {
+                11 => {
+                    return pool.try_add(Operation::Custom(CustomOperation::new(Not {})), vec![a], vec![], graphs).is_some();
+                }
+                12 => {
+                    // or(x, y) on any two broadcastable bit values
+                    let anyb = pool.arrays_where(|t| t.get_scalar_type() == BIT);
+                    let b2 = *rng.pick(&anyb);
+                    if pool.try_add(Operation::Custom(CustomOperation::new(Or {})), vec![a, b2], vec![], graphs).is_some() {
+                        return true;
+                    }
+                    CustomOperation::new(Or {})
+                }
+                13 => {
+                    let w = *shape_of(&ta).last().unwrap();
+                    if w > 16 || !w.is_power_of_two() {
+                        return false;
+                    }
+                    CustomOperation::new(LongDivision { signed: sg })
+                }
                 0 => CustomOperation::new(GreaterThan { signed_comparison: sg }),
                 1 => CustomOperation::new(LessThan { signed_comparison: sg }),
                 2 => CustomOperation::new(GreaterThanEqualTo { signed_comparison: sg }),
